@@ -86,15 +86,15 @@ class ItemAttributeList(List[T]):
         list.insert(self, index, obj)
 
     def remove(self, obj: T) -> None:
-        list.remove(self, obj)
-
-        keys = [k for (k, v) in self._item_dict.items() if v == obj]
-        for key in keys:
-            del self._item_dict[key]
+        # like list.remove(), this removes the first item that is
+        # equal to the object passed (or raises ValueError)
+        self.pop(self.index(obj))
 
     def pop(self, index: SupportsIndex = -1) -> T:
         result = list.pop(self, index)
-        keys = [k for (k, v) in self._item_dict.items() if v == result]
+        # only remove the name of the object that has been removed
+        # from the list, not the names of all items that compare equal
+        keys = [k for (k, v) in self._item_dict.items() if v is result]
         for key in keys:
             del self._item_dict[key]
         return result
